@@ -69,4 +69,49 @@ theorem fmtSci_marker_gen (B : Nat) (m : Mode) (f : FmtSpec) (prec : Option Nat)
   unfold fmtSci Dashu.Gen.float_expMarker
   by_cases h : B = 10 <;> cases upper <;> simp [h]
 
+/-- the loop of the model's `ilogExact` IS the regenerated loop of `ilog_exact` (float/src/utils.rs); `n` is a `Word`.
+    (The proof covers both forms the extractor reads: `pow *= base` and the checked form that returns 0 when the product
+    leaves the Word — then the product is beyond `n` and the model's loop answers 0 as well.) -/
+theorem ilogExact_go_eq_gen (n base : Nat) (hn : n < 2 ^ 64) : ∀ (fuel pow exp : Nat),
+    ilogExact.go n base fuel pow exp = Dashu.Gen.float_ilogExactLoop n base fuel pow exp := by
+  intro fuel
+  induction fuel with
+  | zero => intro pow exp; simp [ilogExact.go, Dashu.Gen.float_ilogExactLoop]
+  | succ f ih =>
+    intro pow exp
+    simp only [ilogExact.go, Dashu.Gen.float_ilogExactLoop]
+    first
+    | (rw [ih]; done)
+    | (by_cases hlt : pow < n
+       · simp only [hlt, if_true]
+         by_cases hov : pow * base ≥ 2 ^ 64
+         · simp only [hov, if_true]
+           cases f with
+           | zero => simp [ilogExact.go]
+           | succ g =>
+             have h1 : ¬ (pow * base < n) := by omega
+             have h2 : ¬ (pow * base = n) := by omega
+             simp [ilogExact.go, h1, h2]
+         · simp only [hov, if_false]; exact ih _ _
+       · simp only [hlt, if_false])
+
+/-- `ilogExact` IS the regenerated `ilog_exact` for every base ≥ 2 and every `Word` n (for base < 2 the loop of the code does
+    not terminate when `n ≥ base`; the model answers 0 there — no `FBig` has such a base) -/
+theorem ilogExact_eq_gen (n base : Nat) (hb : 2 ≤ base) (hn : n < 2 ^ 64) :
+    ilogExact n base = Dashu.Gen.float_ilogExact n base := by
+  unfold ilogExact Dashu.Gen.float_ilogExact
+  by_cases h : n < base
+  · simp [h]
+  · have h2 : ¬ (n < base ∨ base < 2) := by omega
+    rw [if_neg h2, if_neg h]
+    exact ilogExact_go_eq_gen n base hn 64 base 1
+
+/-- `withBasePrecision` IS the regenerated precision decision of `FBig::with_base` (float/src/convert.rs), with the model's
+    `ilogExact` for `ilog_exact` and the documented maximum `withBasePrecisionSpec` for `BASE.pow(p).ilog(NewB)` -/
+theorem withBasePrecision_eq_gen (W B NewB p : Nat) :
+    withBasePrecision W B NewB p =
+      Dashu.Gen.float_withBasePrecision ilogExact (fun b q nb => withBasePrecisionSpec b nb q) B NewB p := by
+  unfold withBasePrecision Dashu.Gen.float_withBasePrecision
+  rfl
+
 end Dashu.Model.Text
